@@ -6,11 +6,11 @@ for p in $pats; do p=$(readlink -f "$p")
   rsync -a --exclude target --exclude .git /repo/ $tmp/repo/
   if (cd $tmp/repo && patch -p1 -s -i "$p" >/dev/null 2>&1); then
     bad=""
-    for c in C01 C02 C03 C04 C05 C06 C07 C08 C09 C10 C11 C12 C13 C14 C15 C16 C17 C18 C19 C20; do
+    for c in ${CHECKS:-C01 C02 C03 C04 C05 C06 C07 C08 C09 C10 C11 C12 C13 C14 C15 C16 C17 C18 C19 C20}; do
       out=$(cd /verif && MPCHECK_REPO=$tmp/repo ./check $c 2>&1); rc=$?
       [ $rc -ne 0 ] && bad="$bad $c[$(echo "$out" | grep -E '^  violated' | sed 's/^  violated //' | tr '\n' ' ' | cut -c1-160)]"
     done
-    echo "== $(basename $p): ${bad:-all 20 checks silent}"
+    echo "== $(basename $p): ${bad:-all ${CHECKS:+listed }checks silent}"
   else
     echo "== $p does not apply"
   fi
